@@ -84,6 +84,40 @@ def extract(repo):
     except Exception:
         for k in ('transHdrLen', 'dataHdrLen', 'transHdrStructLen', 'dataHdrStructLen', 'metadataSize'):
             c.setdefault(k, None)
+    # ---- more constants the models rely on (magic, sanity thresholds, fsrecover window) ------
+    try:
+        t = _parse(repo, '_compat.py')
+        a = _module_assigns(t)
+        m = a.get('FILESTORAGE_MAGIC')
+        c['magicAsNat'] = int.from_bytes(m, 'big') if isinstance(m, bytes) and len(m) == 4 else None
+    except Exception:
+        c['magicAsNat'] = None
+    try:
+        t = _parse(repo, os.path.join('FileStorage', 'FileStorage.py'))
+        fn = _func(t, '_check_sanity', 'FileStorage')
+        mc = minpos = None
+        for node in ast.walk(fn) if fn else []:
+            if isinstance(node, ast.Assign) and getattr(node.targets[0], 'id', '') == 'max_checked':
+                mc = ast.literal_eval(node.value)
+            if (minpos is None and isinstance(node, ast.Compare) and isinstance(node.left, ast.Name)
+                    and node.left.id == 'pos' and isinstance(node.ops[0], ast.Lt)
+                    and isinstance(node.comparators[0], ast.Constant)):
+                minpos = node.comparators[0].value       # first `pos < N` test: the `pos < 100` guard
+        c['sanityMaxChecked'] = mc
+        c['sanityMinPos'] = minpos
+    except Exception:
+        c['sanityMaxChecked'] = c['sanityMinPos'] = None
+    try:
+        t = _parse(repo, 'fsrecover.py')
+        fn = _func(t, 'scan')
+        w = None
+        for node in ast.walk(fn) if fn else []:
+            if (isinstance(node, ast.Call) and isinstance(node.func, ast.Attribute) and node.func.attr == 'read'
+                    and node.args and isinstance(node.args[0], ast.Constant)):
+                w = node.args[0].value
+        c['recoverScanWindow'] = w
+    except Exception:
+        c['recoverScanWindow'] = None
     return c
 
 
